@@ -551,6 +551,16 @@ impl<T: Valid> Valid for Vec<T> {
     }
 }
 
+/// The length prefix of a serialized sequence is untrusted input: reserving
+/// `len` elements up-front lets a few bytes of input request an arbitrarily
+/// large allocation (or panic with a capacity overflow). Reserve at most 1 MiB
+/// worth of elements and let the collection grow as elements actually arrive.
+#[inline]
+fn cautious_capacity<T>(len: usize) -> usize {
+    const MAX_PREALLOC_BYTES: usize = 1 << 20;
+    len.min(MAX_PREALLOC_BYTES / core::mem::size_of::<T>().max(1))
+}
+
 impl<T: CanonicalDeserialize> CanonicalDeserialize for Vec<T> {
     #[inline]
     fn deserialize_with_mode<R: Read>(
@@ -561,7 +571,7 @@ impl<T: CanonicalDeserialize> CanonicalDeserialize for Vec<T> {
         let len = u64::deserialize_with_mode(&mut reader, compress, validate)?
             .try_into()
             .map_err(|_| SerializationError::NotEnoughSpace)?;
-        let mut values = Self::with_capacity(len);
+        let mut values = Self::with_capacity(cautious_capacity::<T>(len));
         for _ in 0..len {
             values.push(T::deserialize_with_mode(
                 &mut reader,
@@ -658,7 +668,7 @@ impl<T: CanonicalDeserialize> CanonicalDeserialize for VecDeque<T> {
         let len = u64::deserialize_with_mode(&mut reader, compress, validate)?
             .try_into()
             .map_err(|_| SerializationError::NotEnoughSpace)?;
-        let mut values = Self::with_capacity(len);
+        let mut values = Self::with_capacity(cautious_capacity::<T>(len));
         for _ in 0..len {
             values.push_back(T::deserialize_with_mode(
                 &mut reader,
